@@ -205,9 +205,12 @@ F15 = ["api", "ref_wire", "kit_clnt", "c15_clnt"]
 def h15(k, dotu):
     return {"harness": "vxH15Clnt", "args": [str(k), "-1", b(dotu)], "files": F15, "preempt": 0, "reach": ["done"],
             "bounds": f"File.Readdir(0) on a model directory server obeying the window rule: {k} entries of different sizes (name lengths 1,3,5; all field bytes symbolic), dotu={b(dotu)}, every msize from largest entry + IOHDRSZ to whole directory + IOHDRSZ + 1"}
+def h15small(k, dotu):
+    return {"harness": "vxH15Clnt", "args": [str(k), "-2", b(dotu)], "files": F15, "preempt": 0, "reach": ["done"],
+            "bounds": f"File.Readdir(0), {k} entries, msize = first entry + IOHDRSZ (a later, larger entry does not fit and the server refuses it): a listing returned without error is complete; dotu={b(dotu)}"}
 frag("C15_clnt.frag.json", {
- "quick": [h15(0, True), h15(1, False), h15(2, True), h15(3, False)],
- "thorough": [h15(k, d) for k in (0, 1, 2, 3) for d in (False, True)],
+ "quick": [h15(0, True), h15(1, False), h15(2, True), h15(3, False), h15small(2, False), h15small(3, True)],
+ "thorough": [h15(k, d) for k in (0, 1, 2, 3) for d in (False, True)] + [h15small(k, d) for k in (2, 3) for d in (False, True)],
  "outside": ["client: more than 3 entries (Readdir's slice growth beyond 32 entries is not reached)", "client: Readdir(num != 0) (not part of the statement)"],
  "assumptions": CLNT_ASSUME[:1] + ["H15.clnt: the server is a model obeying H15.window (whole records, as many as fit count, error if the next one does not fit, empty at the end, offsets 0 / entry boundary only)"],
 })
